@@ -95,9 +95,23 @@ def hidden_marker_fields(ctx: Ctx) -> set:
     for ci in storage_classes(ctx):
         if ci is ctx.storage_class():
             continue
+        def _is_set(v):
+            return (isinstance(v, ast.Call) and isinstance(v.func, ast.Name) and v.func.id in ('set', 'frozenset')) \
+                or isinstance(v, (ast.Set, ast.SetComp))
+        # a class-level set is the same kind of marker (shared by every instance - the sharing rules judge that)
+        out |= {name for name, (ann, default) in ci.fields.items() if default is not None and _is_set(default)}
         init = ci.methods.get('__init__')
         if init is None:
             continue
+        # what the constructor, interpreted, leaves on the object as a set (whichever helper produced it)
+        try:
+            from ..absint import AObj as _AObj, Interp as _Interp, Oracle as _Oracle, reset_world as _reset
+            _reset()
+            probe = _AObj(ci, {'data': {}})
+            _Interp(ctx.p, _Oracle()).call_unit(init, [], {}, probe)
+            out |= {name for name, v in probe.attrs.items() if name != 'data' and isinstance(v, (set, frozenset))}
+        except Exception:          # the syntactic reading below still applies
+            pass
         for n in ast.walk(init.node):
             if isinstance(n, (ast.Assign, ast.AnnAssign)):
                 tgts = n.targets if isinstance(n, ast.Assign) else [n.target]
@@ -128,7 +142,33 @@ def hides(ctx: Ctx, g: Graph) -> List[Tuple[Ev, str, tuple]]:
         fld = store_field(recv[1])
         if fld in known and c.args:
             out.append((ev, fld, sym.term(ctx.p, c.args[0], ev.inst)))
+            continue
+        # the store is an element of a table of stores (`for store in self._stores(): store.hide(k)`): one HIDE per listed store
+        inner = recv[1]
+        if isinstance(inner, tuple) and inner and inner[0] == 'elem' and c.args:
+            for f_ in _store_table(ctx, inner[1]):
+                if f_ in known:
+                    out.append((ev, f_, sym.term(ctx.p, c.args[0], ev.inst)))
     return out
+
+
+def _store_table(ctx: Ctx, t) -> List[str]:
+    """Fields named by a table of stores: a tuple / list display of `self.<field>` terms, or what an in-repo function returns."""
+    if not isinstance(t, tuple) or not t:
+        return []
+    if t[0] in ('tuple', 'list') and len(t) > 1 and isinstance(t[1], (tuple, list)):
+        return [store_field(x) for x in t[1] if store_field(x)]
+    if t[0] == 'call' and isinstance(t[1], str) and t[1] in ctx.p.functions:
+        fn = ctx.p.functions[t[1]]
+        rets = [n for n in ast.walk(fn.node) if isinstance(n, ast.Return) and n.value is not None]
+        out = []
+        for r in rets:
+            if isinstance(r.value, (ast.Tuple, ast.List)):
+                for e in r.value.elts:
+                    if isinstance(e, ast.Attribute) and isinstance(e.value, ast.Name) and e.value.id in ('self', 'cls'):
+                        out.append(e.attr)
+        return out
+    return []
 
 
 def outer_site(g: Graph, ev: Ev) -> Ev:
@@ -288,3 +328,26 @@ def after_event_search(ctx: Ctx, g: Graph, via: int, barrier: set, goals: set, l
 
 def path_text(g: Graph, path: List[int]) -> List[str]:
     return describe_path(g, path)
+
+
+def awaited_in_frame(ctx: Ctx, g: Graph, ev: Ev, depth: int = 0) -> bool:
+    """The awaitable a call creates is awaited by the frame that created it: directly, or the call is what a synchronous helper
+    returns and the caller awaits the helper's call (the helper only builds the awaitable)."""
+    if ev.info.get('awaited'):
+        return True
+    inst = ev.inst
+    if depth > 3 or inst.parent is None or inst.unit.is_async:
+        return False
+    env = FuncEnv.of(ctx.p, inst.unit)
+    returned = False
+    for n in env.own_nodes():
+        if isinstance(n, ast.Return) and n.value is not None:
+            v, _ = sym.resolve_value(ctx.p, n.value, inst)
+            if v is ev.node or n.value is ev.node:
+                returned = True
+    if not returned:
+        return False
+    for cand in g.evs:
+        if cand.kind == 'call' and cand.info.get('callee') is inst:
+            return awaited_in_frame(ctx, g, cand, depth + 1)
+    return False
